@@ -49,15 +49,9 @@ impl<'a> Iterator for Tokenizer<'a> {
                     }
                     if let Some('i') = self.expr.peek() {
                         self.expr.next()?;
-                        Some(Token::Num(Complex::new(
-                            0.0,
-                            number.parse::<f64>().unwrap(),
-                        )))
+                        Some(Token::Num(Complex::new(0.0, number.parse::<f64>().ok()?)))
                     } else {
-                        Some(Token::Num(Complex::new(
-                            number.parse::<f64>().unwrap(),
-                            0.0,
-                        )))
+                        Some(Token::Num(Complex::new(number.parse::<f64>().ok()?, 0.0)))
                     }
                 } else {
                     None
@@ -66,61 +60,61 @@ impl<'a> Iterator for Tokenizer<'a> {
             Some('⁰') => Some(Token::Superscript(Complex::new(
                 deserialize_superscript_number(&current_char?, &mut self.expr)
                     .parse::<f64>()
-                    .unwrap(),
+                    .ok()?,
                 0.0,
             ))),
             Some('¹') => Some(Token::Superscript(Complex::new(
                 deserialize_superscript_number(&current_char?, &mut self.expr)
                     .parse::<f64>()
-                    .unwrap(),
+                    .ok()?,
                 0.0,
             ))),
             Some('²') => Some(Token::Superscript(Complex::new(
                 deserialize_superscript_number(&current_char?, &mut self.expr)
                     .parse::<f64>()
-                    .unwrap(),
+                    .ok()?,
                 0.0,
             ))),
             Some('³') => Some(Token::Superscript(Complex::new(
                 deserialize_superscript_number(&current_char?, &mut self.expr)
                     .parse::<f64>()
-                    .unwrap(),
+                    .ok()?,
                 0.0,
             ))),
             Some('⁴') => Some(Token::Superscript(Complex::new(
                 deserialize_superscript_number(&current_char?, &mut self.expr)
                     .parse::<f64>()
-                    .unwrap(),
+                    .ok()?,
                 0.0,
             ))),
             Some('⁵') => Some(Token::Superscript(Complex::new(
                 deserialize_superscript_number(&current_char?, &mut self.expr)
                     .parse::<f64>()
-                    .unwrap(),
+                    .ok()?,
                 0.0,
             ))),
             Some('⁶') => Some(Token::Superscript(Complex::new(
                 deserialize_superscript_number(&current_char?, &mut self.expr)
                     .parse::<f64>()
-                    .unwrap(),
+                    .ok()?,
                 0.0,
             ))),
             Some('⁷') => Some(Token::Superscript(Complex::new(
                 deserialize_superscript_number(&current_char?, &mut self.expr)
                     .parse::<f64>()
-                    .unwrap(),
+                    .ok()?,
                 0.0,
             ))),
             Some('⁸') => Some(Token::Superscript(Complex::new(
                 deserialize_superscript_number(&current_char?, &mut self.expr)
                     .parse::<f64>()
-                    .unwrap(),
+                    .ok()?,
                 0.0,
             ))),
             Some('⁹') => Some(Token::Superscript(Complex::new(
                 deserialize_superscript_number(&current_char?, &mut self.expr)
                     .parse::<f64>()
-                    .unwrap(),
+                    .ok()?,
                 0.0,
             ))),
             Some('0'..='9') => {
@@ -134,15 +128,9 @@ impl<'a> Iterator for Tokenizer<'a> {
                 }
                 if let Some('i') = self.expr.peek() {
                     self.expr.next()?;
-                    Some(Token::Num(Complex::new(
-                        0.0,
-                        number.parse::<f64>().unwrap(),
-                    )))
+                    Some(Token::Num(Complex::new(0.0, number.parse::<f64>().ok()?)))
                 } else {
-                    Some(Token::Num(Complex::new(
-                        number.parse::<f64>().unwrap(),
-                        0.0,
-                    )))
+                    Some(Token::Num(Complex::new(number.parse::<f64>().ok()?, 0.0)))
                 }
             }
             Some('a') => match self.expr.clone().take(6).collect::<String>().as_str() {
